@@ -53,8 +53,14 @@ use futures_util::stream::StreamExt;
 use object::Object;
 use service::Service;
 use state::State;
+#[cfg(not(kani))]
 use std::collections::hash_map::{Entry, HashMap};
+#[cfg(kani)]
+use crate::verif_collections::hash_map::{Entry, HashMap};
+#[cfg(not(kani))]
 use std::collections::HashSet;
+#[cfg(kani)]
+use crate::verif_collections::HashSet;
 
 pub use error::BrokerShutdown;
 pub use handle::BrokerHandle;
@@ -2518,3 +2524,7 @@ struct PendingFunctionCall {
     callee_svc: ServiceUuid,
     aborted: bool,
 }
+
+#[cfg(kani)]
+#[path = "/verif/harness/broker/broker.rs"]
+mod verif;
